@@ -164,7 +164,7 @@ func (t *loopTr) bigMutCall(c *ast.CallExpr) types.Object {
 // bigPanics: c is a call that can panic by itself (Mod by zero) or yields the panic outcome (ModInverse, see the header).
 func (t *loopTr) bigPanics(c *ast.CallExpr) bool {
 	_, name := t.bigMethod(c)
-	return name == "Mod" || name == "ModInverse"
+	return name == "Mod" || name == "ModInverse" || t.big2Panics(c) // (big2Panics: stage 12)
 }
 
 // ---------------------------------------------------------------- the receiver
@@ -382,6 +382,10 @@ func (t *loopTr) bigCheck() {
 		switch x := e.(type) {
 		case *ast.Ident:
 			if v, isVar := t.objOf(x).(*types.Var); isVar {
+				if v.Parent() == t.set.tp.tpkg.Scope() && v.Pkg() == t.set.tp.tpkg {
+					t.big2PkgConst(e, v) // stage 12 (loops_big2.go): accepted only as a constant
+					return "const"
+				}
 				if v.Parent() == t.set.tp.tpkg.Scope() || v.Pkg() != t.set.tp.tpkg {
 					t.fail(e, "the package-level *big.Int variable %s is not supported (anything could modify it)", x.Name)
 				}
@@ -491,7 +495,7 @@ func (t *loopTr) bigCheck() {
 			}
 			_, name := t.bigMethod(call)
 			switch {
-			case name == "Sign" || name == "Cmp":
+			case name == "Sign" || name == "Cmp" || big2IsReader(name):
 				return true
 			case name == "ModInverse":
 				as, isAssign := callParent.(*ast.AssignStmt)
@@ -504,7 +508,7 @@ func (t *loopTr) bigCheck() {
 				case t.bigFreshExpr(e):
 					return true // the value of the chain is the value of the last operation
 				case shape == "var" && isLocal(e.(*ast.Ident)):
-					if _, isStmt := callParent.(*ast.ExprStmt); !isStmt {
+					if _, isStmt := callParent.(*ast.ExprStmt); !isStmt && !t.big2ChainOK(call, stack) {
 						t.fail(call, "`%s` returns its receiver: using the result would alias %s (only supported as a statement of its own, or on new(big.Int))", t.p.src(call), src)
 					}
 					return true
@@ -650,6 +654,9 @@ func (t *loopTr) bigInt64(e ast.Expr) string {
 
 // bigOpValue is the value z has after z.name(args…), name a modifying method.
 func (t *loopTr) bigOpValue(c *ast.CallExpr, name string) string {
+	if v, ok := t.big2OpValue(c, name); ok {
+		return v // stage 12 (loops_big2.go)
+	}
 	arity := map[string]int{"Mul": 2, "Add": 2, "Sub": 2, "Mod": 2, "Lsh": 2, "Set": 1, "SetInt64": 1}[name]
 	if len(c.Args) != arity || c.Ellipsis.IsValid() {
 		t.fail(c, "arity of %s", name)
@@ -681,6 +688,9 @@ func (t *loopTr) bigOpValue(c *ast.CallExpr, name string) string {
 // bigCall translates the calls of stage 10 that are expressions: new(big.Int), big.NewInt(c), x.Sign(), x.Cmp(y), and
 // <fresh>.Op(…).  ok = false: x is not such a call.
 func (t *loopTr) bigCall(x *ast.CallExpr) (string, lkind, bool) {
+	if v, k, ok := t.big2Call(x); ok {
+		return v, k, true // stage 12 (loops_big2.go): a method of an interface variable
+	}
 	if t.isNewBig(x) {
 		return "(0 : Int)", kBig, true
 	}
@@ -720,6 +730,9 @@ func (t *loopTr) bigCall(x *ast.CallExpr) (string, lkind, bool) {
 	case name == "ModInverse":
 		t.fail(x, "ModInverse is only supported in the statement `v := new(big.Int).ModInverse(g, n)` (its result may be nil)")
 	}
+	if v, k, ok := t.big2Reader(x, recv, name); ok {
+		return v, k, true // stage 12 (loops_big2.go): Bytes, Int64
+	}
 	t.fail(x, "the method %s of *big.Int is not supported (only Mul, Add, Sub, Mod, Lsh, Set, SetInt64, Sign, Cmp, and ModInverse in the statement `v := new(big.Int).ModInverse(g, n)`)", name)
 	return "", 0, false
 }
@@ -739,6 +752,9 @@ func (t *loopTr) bigStmt(s *ast.ExprStmt, c *ast.CallExpr, o types.Object) []bin
 
 // bigModInverseStmt translates `v := new(big.Int).ModInverse(g, n)` (see bigHeaderText); ok = false: s is not that.
 func (t *loopTr) bigModInverseStmt(s ast.Stmt, list []ast.Stmt, ind string, m blockMode, rest func(string) string) (string, bool) {
+	if out, ok := t.big2Stmt(s, ind, m, rest); ok {
+		return out, true // stage 12 (loops_big2.go): x := v.Op(…).M(), x := v.Index(w)
+	}
 	as, ok := s.(*ast.AssignStmt)
 	if !ok || len(as.Lhs) != 1 || len(as.Rhs) != 1 {
 		return "", false
@@ -817,6 +833,9 @@ func (t *loopTr) bigModInverseStmt(s ast.Stmt, list []ast.Stmt, ind string, m bl
 // bigReturn handles two forms of return that the earlier stages reject: a bare `return` in a function with named
 // results (in a function that uses *big.Int), and `return f(g(…))`.  ok = false: s is neither.
 func (t *loopTr) bigReturn(s *ast.ReturnStmt, list []ast.Stmt, ind string, m blockMode, k func(string) string) (string, bool) {
+	if out, ok := t.big2Return(s, list, ind, m, k); ok {
+		return out, true // stage 12 (loops_big2.go): return v.Op(…)
+	}
 	if len(s.Results) == 0 && t.big != nil && len(t.namedRes) > 0 && !t.ctor {
 		// the current values of the named results
 		s2 := &ast.ReturnStmt{Return: s.Return}
